@@ -291,7 +291,7 @@ def verify (c : CurveParams) (bf : Int) (Q : Pt) (val r s : Int) : Except Err Bo
           | .ok b =>
             match add c a b with
             | .error e => .error e
-            | .ok none => .error .type
+            | .ok none => .ok false          -- `if point == self._infinity: return False`
             | .ok (some (x, _)) => .ok (fmod x c.n = r)
 
 /-- the `while True` loop of `sign_with_recid`.  `k` runs through consecutive integers and
